@@ -4,6 +4,7 @@
 //! Compared with coq/model/Events.v; judged by the oracle of coq/run/Run_C18.v (every key whose
 //! stored content a committed change altered is named by an event received afterwards).
 use discret::verif_hooks::configuration::Configuration;
+use discret::verif_hooks::database::edge::{Edge, EdgeDeletionEntry};
 use discret::verif_hooks::database::graph_database::{DbMessage, GraphDatabaseService};
 use discret::verif_hooks::database::mutation_query::MutationQuery;
 use discret::verif_hooks::database::node::{Node, NodeDeletionEntry, NodeIdentifier};
@@ -34,6 +35,7 @@ enum Op {
     LDelRef { src: usize, ent: u64, dest: usize, sig: usize, esig: usize },
     SNodes { room: usize, ns: Vec<(usize, u64, i64, usize)> },
     SDelNodes(Vec<(usize, usize, u64, i64, i64, usize)>),
+    SDelEdges(Vec<(usize, usize, u64, usize, i64, i64, usize)>), // room src ent dest cdate date sig
 }
 #[derive(Clone, Debug)]
 enum Api { Tick(i64), Call(Op), Ingest(Op), Compute, Stream(Vec<Op>) }
@@ -319,6 +321,18 @@ async fn s_delnodes(inst: &mut Inst, scn: &mut Scn, room: usize, ni: usize, mdat
     finish_ingest(inst, scn, Op::SDelNodes(vec![(room, sh.idx, sh.ent, mdate, date, sig)])).await;
 }
 
+/// an edge tombstone from a peer for the reference src -> dest, recorded under source entity `ent`
+async fn s_deledge(inst: &mut Inst, scn: &mut Scn, room: usize, si: usize, di: usize, cdate: i64, date: i64, ent: u64) {
+    let (s, d) = (scn.nodes[si].clone(), scn.nodes[di].clone());
+    let edge = Edge { src: s.uid, src_entity: ent_short(&inst.names, ent), label: inst.names.label.clone(), dest: d.uid, cdate, ..Default::default() };
+    let e = EdgeDeletionEntry::build(scn.rooms[room], &edge, date, &inst.peer);
+    let sig = scn.sig(&e.signature);
+    inst.app.delete_edges(vec![e]).await.unwrap();
+    scn.edges.retain(|x| !(x.0 == s.idx && x.1 == d.idx && x.2 == cdate && ent == 1));
+    scn.bump("s_deledges");
+    finish_ingest(inst, scn, Op::SDelEdges(vec![(room, s.idx, ent, d.idx, cdate, date, sig)])).await;
+}
+
 /// a mutation stream of creations on distinct (room, entity) keys. Since a874354 the stream-end recompute
 /// waits for the last reply; the harness still reads off which mutations were committed before it was
 /// processed and records the writes in that order: a late one makes the trace differ from the model
@@ -390,6 +404,9 @@ fn op_coq(o: &Op, f: &Fin) -> String {
             format!("{{| sn_id := {}; sn_ent := {}; sn_mdate := {}; sn_sig := {} |}}", gn(*i as u64), gn(*e), gz(*m), gn(f.s(*s)))).collect::<Vec<_>>())),
         Op::SDelNodes(ts) => format!("SDelNodes {}", glist(&ts.iter().map(|(r, i, e, m, d, s)|
             format!("{{| nd_room := {}; nd_id := {}; nd_ent := {}; nd_mdate := {}; nd_date := {}; nd_sig := {} |}}", gn(f.r(*r)), gn(*i as u64), gn(*e), gz(*m), gz(*d), gn(f.s(*s)))).collect::<Vec<_>>())),
+        Op::SDelEdges(ts) => format!("SDelEdges {}", glist(&ts.iter().map(|(r, s, e, d, c, dt, sg)|
+            format!("{{| ed_room := {}; ed_edge := {{| e_src := {}; e_ent := {}; e_label := 1%N; e_dest := {}; e_cdate := {} |}}; ed_date := {}; ed_sig := {} |}}",
+                gn(f.r(*r)), gn(*s as u64), gn(*e), gn(*d as u64), gz(*c), gz(*dt), gn(f.s(*sg)))).collect::<Vec<_>>())),
     }
 }
 fn api_coq(a: &Api, f: &Fin) -> String {
@@ -569,7 +586,7 @@ async fn main() {
         emit_seq(&mut out, &scn, "directed-stream");
         case_no += 1;
     }
-    { // directed: a synchronised version under another entity (C09 class 6) is never announced for the day it leaves
+    { // directed, repaired (9b19d99), must pass: a synchronised version under another entity; the day it leaves is announced
         let mut scn = new_scn(&mut inst, case_no, 1).await;
         let d0 = scn.t0 + 4000;
         s_nodes(&mut inst, &mut scn, 0, vec![(None, 1, d0), (None, 1, d0 + 1000)]).await;
@@ -578,6 +595,20 @@ async fn main() {
         s_nodes(&mut inst, &mut scn, 0, vec![(Some(0), 2, BASE + DAY + 7000)]).await;
         do_compute(&mut inst, &mut scn).await;
         emit_seq(&mut out, &scn, "directed-unmarked");
+        case_no += 1;
+    }
+    { // directed, repaired (de0967d), must pass: an edge tombstone replaced under another source entity; the day that loses it is announced
+        let mut scn = new_scn(&mut inst, case_no, 1).await;
+        l_create(&mut inst, &mut scn, 1, Some(0)).await;
+        l_create(&mut inst, &mut scn, 1, Some(0)).await;
+        l_addref(&mut inst, &mut scn, 0, 1).await;
+        let e = scn.edges[0];
+        let dd = scn.now - 3;
+        s_deledge(&mut inst, &mut scn, 0, 0, 1, e.2, dd, 1).await;
+        do_compute(&mut inst, &mut scn).await;
+        s_deledge(&mut inst, &mut scn, 0, 0, 1, e.2, dd, 2).await;
+        do_compute(&mut inst, &mut scn).await;
+        emit_seq(&mut out, &scn, "directed-edge-tombstone");
         case_no += 1;
     }
     for i in 0..n {
